@@ -194,6 +194,30 @@ for fn, real, kw in contracts:
         kw.setdefault('uf_float', ('fmul', 'fdiv', 'fadd', 'fsub'))   # element-wise float products/quotients: same operation on the same operands
     P.contract(fn, real, **kw)
 
+# Aligned matrix types take other code paths (mul4x4<T, Q, true>, splat helpers of func_common_simd.inl, type_mat4x4_simd.inl): the float and double
+# product / matrix-vector contracts are re-enforced on extractions compiled with GLM_FORCE_INTRINSICS + GLM_FORCE_DEFAULT_ALIGNED_GENTYPES at SSE2
+# (float and double; seed C02_3 lives in the SSE2-only double splat) and AVX2+FMA (float; the AVX double kernels do not pass the translator validation).
+import copy as _copy, re as _re
+for _isa, _fl in (('sse2', ['-msse2']), ('avx2fma', ['-mavx2', '-mfma'])):
+    for _dn, _dr in D.items():
+        _names = {c.fn for c in P.contracts if c.build == _dn and c.kind == 'R' and c.sig is None and _re.match(r'glm_mul_', c.fn) and
+                  (c.fn.endswith('_f32') or (_isa == 'sse2' and c.fn.endswith('_f64')))}
+        if not _names:
+            continue
+        _sb = P.build(_dr, 'flat', tag='%s_simd_%s' % (_dn, _isa), defines=['GLM_ENABLE_EXPERIMENTAL', 'GLM_FORCE_INTRINSICS', 'GLM_FORCE_DEFAULT_ALIGNED_GENTYPES'], flags=_fl)
+        _sb.only = set()
+        for _c in list(P.contracts):
+            if _c.build == _dn and _c.fn in _names:
+                _c2 = _copy.copy(_c)
+                _c2.build = _sb.tag
+                _c2.real = '[GLM_FORCE_INTRINSICS, aligned, %s] %s' % (_isa, _c.real)
+                if _re.search(r'm4x4_m4x4|m4x4_v_|v_m4x4', _c.fn):
+                    _c2.tier = 'quick'      # the 4x4 kernels are the hand-written SIMD ones: per-change tier for double as well
+                _sb.only.add(_c.fn)
+                for _u in _c.uses:
+                    _sb.only.add(_u)
+                P.contracts.append(_c2)
+
 P.level_text = ('for all nine shapes: uint32 matrices (ring Z/2^32: exact) are proved equal to the textbook column-major definitions for all entry '
                 'values by CBMC with SMT back ends; float products are proved equal to the definition as real-valued functions (over the reals: '
                 'machine arithmetic treated as mathematical); element-wise operators, transposes, accessors and the 81 shape conversions are proved bit-exact')
